@@ -39,11 +39,13 @@ const (
 )
 
 // The four bank denoms that can become alliance assets (index = AssetCfg index).
+// The names are related on purpose: "alpha" is a suffix of "ualpha", "ualpha" a prefix of "ualpha2"
+// (key parsing and suffix/prefix matching in indexes and queries must not confuse them).
 var AllianceDenoms = []string{
 	"ibc/A1A1A1A1A1A1A1A1A1A1A1A1A1A1A1A1A1A1A1A1A1A1A1A1A1A1A1A1A1A1A1A1",
-	"ibc/B2B2B2B2B2B2B2B2B2B2B2B2B2B2B2B2B2B2B2B2B2B2B2B2B2B2B2B2B2B2B2B2",
 	"ualpha",
-	"factory/terra1xyz/ugamma",
+	"alpha",
+	"ualpha2",
 }
 
 // An extra fee denom that is never an alliance asset: gives rewards in a second denomination.
